@@ -47,9 +47,11 @@ suite_ok = p1.returncode == 0
 p2 = sh("go test -vet=off -count=1 -run '%s' %s" % (runre, " ".join(pkgs)))
 demo_fails = p2.returncode != 0 and "FAIL" in (p2.stdout + p2.stderr)
 # 3. demo without change
-sh("git stash push -- " + " ".join(changed), check=True)
+# (no `git stash`: the stash is shared between worktrees of one repository)
+open(wt + ".own.patch", "w").write(patch)
+sh("git checkout -- " + " ".join(changed), check=True)
 p3 = sh("go test -vet=off -count=1 -run '%s' %s" % (runre, " ".join(pkgs)))
-sh("git stash pop", check=True)
+sh("git apply " + wt + ".own.patch", check=True)
 demo_passes_without = p3.returncode == 0
 print("suite_ok=%s demo_fails_with=%s demo_passes_without=%s" % (suite_ok, demo_fails, demo_passes_without))
 if not (suite_ok and demo_fails and demo_passes_without):
